@@ -2611,3 +2611,135 @@ pub fn wait_loop_family(full: bool) -> Vec<Program> {
     }
     out
 }
+
+/// ARC-reclone: the count goes 2 -> 1 -> 2 -> ... -> 0. Remote threads read the cell and drop
+/// their handle, then raise a relaxed flag (no synchronisation); only then does the remaining
+/// owner clone again (clone / increment_strong_count) and the handles are released in every
+/// order, possibly by a third thread. The payload's Drop writes the cell: the remote drops must
+/// still happen-before the final one although the Arc was unique for a while.
+pub fn arc_reclone_family() -> Vec<Program> {
+    let mut out = vec![];
+    for nremote in 1..=2usize {
+        let mut pre: Vec<Op> = vec![K::ArcNew { h: 0, arc: 0 }.into()];
+        for t in 1..=nremote {
+            pre.push(K::ArcClone { from: 0, to: 2 * t }.into());
+        }
+        let remote: Vec<Vec<Op>> = (1..=nremote).map(|t| vec![rd(0), K::ArcDrop { h: 2 * t }.into(), st(t - 1, 1, Rlx)]).collect();
+        let awaits: Vec<Op> = (0..nremote).map(|a| K::Await { a, mo: Rlx, want: 1 }.into()).collect();
+        let nh = 2 * nremote + 2; // the new handle slot
+        for inc in [false, true] {
+            let reclone: Op = if inc { K::ArcIncStrong { h: 0, to: nh }.into() } else { K::ArcClone { from: 0, to: nh }.into() };
+            let tails: Vec<(&str, Vec<Op>)> = vec![
+                ("new-first", vec![K::ArcDrop { h: nh }.into(), K::ArcDrop { h: 0 }.into()]),
+                ("old-first", vec![K::ArcDrop { h: 0 }.into(), K::ArcDrop { h: nh }.into()]),
+                ("get_mut", vec![K::ArcDrop { h: nh }.into(), K::ArcGetMut { h: 0 }.into(), K::ArcDrop { h: 0 }.into()]),
+                ("try_unwrap", vec![K::ArcDrop { h: nh }.into(), K::ArcTryUnwrap { h: 0 }.into()]),
+                ("dec", vec![K::ArcDecStrong { h: nh }.into(), K::ArcDrop { h: 0 }.into()]),
+            ];
+            for (tn, tail) in tails {
+                let mut mid = awaits.clone();
+                mid.push(reclone.clone());
+                mid.extend(tail);
+                let objs = Objs { atomics: vec![0; nremote + 1], handles: nh + 1, arcs: vec![Some(0)], cells: 1, ..Default::default() };
+                out.push(with_main(&format!("ARC-reclone-{}-{}-{}", nremote, if inc { "inc" } else { "clone" }, tn), objs, pre.clone(), remote.clone(), mid, vec![]));
+            }
+            // the new handle goes to a third thread, which waits for a relaxed flag before dropping it
+            for main_first in [false, true] {
+                let mut ch = remote.clone();
+                ch.push(vec![K::Await { a: nremote, mo: Rlx, want: 1 }.into(), K::ArcDrop { h: nh }.into()]);
+                let mut mid = awaits.clone();
+                mid.push(reclone.clone());
+                if main_first {
+                    mid.push(K::ArcDrop { h: 0 }.into());
+                    mid.push(st(nremote, 1, Rlx));
+                } else {
+                    mid.push(st(nremote, 1, Rlx));
+                    mid.push(K::ArcDrop { h: 0 }.into());
+                }
+                let objs = Objs { atomics: vec![0; nremote + 1], handles: nh + 1, arcs: vec![Some(0)], cells: 1, ..Default::default() };
+                out.push(with_main(&format!("ARC-reclone-{}-{}-third-{}", nremote, if inc { "inc" } else { "clone" }, main_first), objs, pre.clone(), ch, mid, vec![]));
+            }
+        }
+    }
+    out
+}
+
+/// CELL-open: accesses that stay open across other operations (`UnsafeCell::get` / `get_mut`
+/// guards). Two threads: T1 opens an access and closes it before / after publishing a SeqCst flag
+/// or inside / outliving a mutex section; T2 accesses the cell directly, after awaiting the flag,
+/// or inside the mutex. Expected verdicts: nothing, a race (unordered), or an overlap (ordered
+/// after the opening but before the close).
+pub fn cell_open_family() -> Vec<Program> {
+    let mut out = vec![];
+    let b = |w: bool| Op::from(K::CellBegin { c: 0, w });
+    let e = |w: bool| Op::from(K::CellEnd { c: 0, w });
+    // the flag is a channel message (an edge the SC machine tracks); `y` is a scheduling point
+    // between the publication / unlock and the close
+    let s = || Op::from(K::Send { ch: 0, v: 1 });
+    let aw = || Op::from(K::Recv { ch: 0 });
+    let y = || Op::from(K::Yield);
+    let l = || Op::from(K::Lock { m: 0 });
+    let u = || Op::from(K::Unlock { m: 0 });
+    let objs = Objs { cells: 1, mutexes: 1, chans: 1, ..Default::default() };
+    for w1 in [false, true] {
+        // (body, publishes the flag, uses the mutex)
+        let t1s: Vec<(Vec<Op>, bool, bool)> = vec![
+            (vec![b(w1), e(w1)], false, false),
+            (vec![b(w1), y(), e(w1)], false, false),
+            (vec![b(w1), s(), e(w1)], true, false),
+            (vec![b(w1), s(), y(), e(w1)], true, false),
+            (vec![b(w1), e(w1), s()], true, false),
+            (vec![l(), b(w1), e(w1), u()], false, true),
+            (vec![l(), b(w1), u(), e(w1)], false, true),
+            (vec![l(), b(w1), u(), y(), e(w1)], false, true),
+        ];
+        for (t1, publishes, locks) in &t1s {
+            let accs: Vec<Vec<Op>> = vec![vec![rd(0)], vec![wr(0)], vec![b(false), e(false)], vec![b(true), e(true)], vec![b(false), y(), e(false)], vec![b(true), y(), e(true)]];
+            for acc in &accs {
+                let mut t2s: Vec<Vec<Op>> = vec![];
+                if *publishes {
+                    t2s.push(std::iter::once(aw()).chain(acc.iter().cloned()).collect());
+                } else if *locks {
+                    t2s.push(std::iter::once(l()).chain(acc.iter().cloned()).chain(std::iter::once(u())).collect());
+                } else {
+                    t2s.push(acc.clone());
+                }
+                for t2 in t2s {
+                    out.push(with_main("CELL-open", objs.clone(), vec![], vec![t1.clone(), t2.clone()], vec![], vec![]));
+                    // main as the second party
+                    out.push(with_main("CELL-open-main", objs.clone(), vec![], vec![t1.clone()], t2, vec![]));
+                }
+            }
+        }
+    }
+    out
+}
+
+/// CELL-nested: a thread accesses a cell while its *own* earlier access is still open (misuse
+/// that loom reports): in main, in a spawned thread while main is blocked in join, and depending
+/// on a flag a third thread sets (so the failure comes in a later iteration).
+pub fn cell_nested_family() -> Vec<Program> {
+    let mut out = vec![];
+    let objs = Objs { atomics: vec![0], cells: 1, ..Default::default() };
+    for w1 in [false, true] {
+        let inners: Vec<Vec<Op>> = vec![
+            vec![rd(0)],
+            vec![wr(0)],
+            vec![K::CellBegin { c: 0, w: false }.into(), K::CellEnd { c: 0, w: false }.into()],
+            vec![K::CellBegin { c: 0, w: true }.into(), K::CellEnd { c: 0, w: true }.into()],
+        ];
+        for inner in &inners {
+            let body: Vec<Op> = std::iter::once(Op::from(K::CellBegin { c: 0, w: w1 })).chain(inner.iter().cloned()).chain(std::iter::once(Op::from(K::CellEnd { c: 0, w: w1 }))).collect();
+            out.push(with_main("CELL-nested-main", objs.clone(), body.clone(), vec![vec![ld(0, Sc)]], vec![], vec![]));
+            out.push(with_main("CELL-nested-child", objs.clone(), vec![], vec![body.clone()], vec![], vec![]));
+            // only when the flag was seen: `ld f; begin; inner.when(f == 1); end`
+            let mut g: Vec<Op> = vec![ld(0, Sc), K::CellBegin { c: 0, w: w1 }.into()];
+            for op in inner {
+                g.push(op.k.clone().when(0, Res::V(1)));
+            }
+            g.push(K::CellEnd { c: 0, w: w1 }.into());
+            out.push(with_main("CELL-nested-flag", objs.clone(), vec![], vec![g, vec![st(0, 1, Sc)]], vec![], vec![]));
+        }
+    }
+    out
+}
